@@ -172,8 +172,15 @@ struct runner {
 			O().count(o.dl < now && !mem_excuse ? "expired_stores_not_kept" : "stores_dropped_for_memory");
 		}
 		if (!stored) need = std::min(need, removed.size());   // a dropped store need not have made room
+		// entries beyond the count limit may go only for the reasons the implementation itself counts (guarded hook): iterations of
+		// check_limits that found shared memory low, or the clear() after an allocation failure. (The state before the store does not
+		// tell: the allocator reports the free bytes of its largest non-empty size class, which can *drop* when buddies coalesce.)
+		unsigned long mem_ev = shared ? d.memory_evictions - before.memory_evictions : 0;
+		bool mem_cleared = shared && d.memory_clears != before.memory_clears;
+		if (mem_ev) O().count("evictions_for_low_shared_memory", (long long)mem_ev);
+		if (mem_cleared) O().count("clears_after_allocation_failure");
 		if (removed.size() != need) {
-			if (!(mem_excuse && removed.size() >= need)) { viol(removed.size() > need ? "cache:evicted-more-than-needed" : "cache:limit-exceeded", "removed=" + std::to_string(removed.size()) + " need=" + std::to_string(need)); return; }
+			if (!(removed.size() > need && (mem_cleared || removed.size() <= need + mem_ev))) { viol(removed.size() > need ? "cache:evicted-more-than-needed" : "cache:limit-exceeded", "removed=" + std::to_string(removed.size()) + " need=" + std::to_string(need) + (shared ? " value=" + std::to_string(o.value.size()) + " triggers=" + std::to_string(o.trig.size()) + " largest-free-chunk-before=" + std::to_string(before.shm_max_chunk) + " of " + std::to_string(before.shm_size) + " memory-evictions=" + std::to_string(mem_ev) : std::string())); return; }
 		}
 		if (!removed.empty()) {
 			// victims: expired ones first (any of them), then the least recently used live entries
